@@ -385,7 +385,7 @@ def mps_peps_roundtrips(ctx, quick, trees):
 
 
 def run(ctx):
-    st = vlib.prepare(ctx, PROP_V)
+    st = vlib.prepare(ctx, PROP_V, need_translators=('tr_deleg',))
     quick = ctx.tier == 'quick'
     ctx.cov['rule'] = ('tensors (plain, diagonal incl. transposed, hard/meta/nested fused, blocked, lazily transposed, empty, complex) of all 7 symmetries and fermionic '
                        'flags x levels 0-2 x routes (direct, numpy save/load, split/combine, legacy dictionary, HDF5); to_dict against a supplied '
